@@ -28,11 +28,53 @@ def run_one(kind, prop, patch):
             ok = p.returncode == 1 and viol
         else:
             ok = p.returncode == 0 and not viol
-        return (kind, prop, patch, "ok" if ok else "WRONG", p.stdout[-1500:] + p.stderr[-500:])
+        return (kind, prop, patch, "ok" if ok else "WRONG", p.stdout[-6000:] + p.stderr[-500:])
     finally:
         shutil.rmtree(d, ignore_errors=True)
 
+def run_cross(sd, props):
+    """apply one seeded change and run EVERY claimed check on it: which checks notice it?"""
+    d = tempfile.mkdtemp(prefix="govc-cross-")
+    res = {}
+    try:
+        repo = os.path.join(d, "repo")
+        subprocess.run(["rsync", "-a", "--exclude", ".git", REPO + "/", repo + "/"], check=True)
+        r = subprocess.run(["patch", "-p1", "-s", "-d", repo, "-i", os.path.join(sd, "patch.diff")], capture_output=True, text=True)
+        if r.returncode != 0:
+            return os.path.basename(sd), {"error": "patch does not apply"}
+        for prop in props:
+            out = os.path.join(d, "out-" + prop)
+            p = subprocess.run([os.path.join(VD, "bin", "govc"), "check", "-repo", repo, "-out", out, prop],
+                               capture_output=True, text=True, env=dict(os.environ, VERIF_DIR=VD))
+            if p.returncode == 1 and "VIOLATION property=" in p.stdout:
+                res[prop] = "VIOLATION"
+            elif "UNDECIDED property=" in p.stdout:
+                res[prop] = "undecided"
+            elif p.returncode == 0:
+                res[prop] = "-"
+            else:
+                res[prop] = "error(%d)" % p.returncode
+            shutil.rmtree(out, ignore_errors=True)
+        return os.path.basename(sd), res
+    finally:
+        shutil.rmtree(d, ignore_errors=True)
+
+def cross(jobs, args):
+    man = json.load(open(os.path.join(VD, "MANIFEST.json")))
+    props = [c["property_id"] for c in man["checks"]]
+    seeds = [sd for sd in sorted(glob.glob(os.path.join(VD, "seeded", "C*-m*"))) if not args or os.path.basename(sd) in args]
+    matrix = {}
+    with concurrent.futures.ThreadPoolExecutor(max_workers=jobs) as ex:
+        for name, res in ex.map(lambda sd: run_cross(sd, props), seeds):
+            matrix[name] = res
+            print(name, " ".join(f"{k}:{v}" for k, v in res.items() if v != "-"), flush=True)
+    json.dump(matrix, open(os.path.join(VD, "seeded", "MATRIX.json"), "w"), indent=1, sort_keys=True)
+
 def main():
+    if "--cross" in sys.argv:
+        jobs = int(sys.argv[sys.argv.index("--jobs") + 1]) if "--jobs" in sys.argv else 4
+        cross(jobs, [a for a in sys.argv[1:] if not a.startswith("--") and not a.isdigit()])
+        return
     args = [a for a in sys.argv[1:] if not a.startswith("--")]
     jobs = 4
     if "--jobs" in sys.argv:
@@ -56,7 +98,18 @@ def main():
     with concurrent.futures.ThreadPoolExecutor(max_workers=jobs) as ex:
         for kind, prop, patch, res, out in ex.map(lambda w: run_one(*w), work):
             label = os.path.basename(patch) if not patch.endswith("patch.diff") else os.path.basename(os.path.dirname(patch))
-            print(f"{res:8s} {kind:8s} {prop} {label}")
+            if patch.endswith("patch.diff") and "--record" in sys.argv:
+                mp = os.path.join(os.path.dirname(patch), "meta.json")
+                try:
+                    meta = json.load(open(mp))
+                except Exception:
+                    meta = {}
+                viol = [l.split("replay=")[1].split()[0] for l in out.splitlines() if l.startswith("VIOLATION property=") and "replay=" in l]
+                meta["detected_by_check"] = prop if res == "ok" else None
+                meta["failed_obligations"] = sorted(set(os.path.basename(v).replace(".json", "") for v in viol))[:12]
+                json.dump(meta, open(mp, "w"), indent=1)
+            und = " (undecided: proof incomplete, no alarm)" if kind == "harmless" and "UNDECIDED property=" in out else ""
+            print(f"{res:8s} {kind:8s} {prop} {label}{und}")
             if res != "ok":
                 bad += 1
                 print("    " + out.replace("\n", "\n    "))
